@@ -1,8 +1,6 @@
 package object
 
 import (
-	"bufio"
-	"bytes"
 	"fmt"
 	"regexp"
 	"strconv"
@@ -66,10 +64,10 @@ func NewCommit(o *Object) (*Commit, error) {
 		Object: o,
 	}
 
-	buf := bytes.NewReader(o.Data)
-	scanner := bufio.NewScanner(buf)
-	for scanner.Scan() {
-		text := scanner.Text()
+	// the first empty line separates the header fields from the message. The lines are split here:
+	// a bufio.Scanner gives up on a line of more than 64 KiB and takes a CR away from the end of a line
+	header, message, _ := strings.Cut(string(o.Data), "\n\n")
+	for _, text := range strings.Split(header, "\n") {
 		splitText := strings.SplitN(text, " ", 2)
 		if len(splitText) != 2 {
 			break
@@ -106,11 +104,7 @@ func NewCommit(o *Object) (*Commit, error) {
 		}
 	}
 
-	message := make([]string, 0)
-	for scanner.Scan() {
-		message = append(message, scanner.Text())
-	}
-	commit.Message = strings.Join(message, "\n")
+	commit.Message = strings.TrimSuffix(message, "\n")
 
 	return commit, nil
 }
